@@ -168,6 +168,11 @@ def item_config(repo):
             raise ValueError('config default ' + const)
         if const not in body[m.end():]:
             raise ValueError('config default ' + const + ' unused')
+        # the getter must read its own field and no other
+        field = fn + '_ms' if lean.endswith('Ms') else fn
+        used = set(re.findall(r'self\s*\.\s*(\w+)', body))
+        if used != {field}:
+            raise ValueError(f'config getter {fn} reads {sorted(used)} instead of {field}')
         out += f'def {lean} : Nat := {num(m.group(1))}\n'
     # no default for the optional limits
     for fn in ['max_concurrent_connections', 'max_frame_size']:
@@ -308,8 +313,74 @@ def item_admit(repo):
     return '\n'.join(lines) + '\n'
 
 
+def item_life(repo):
+    """decision points of the manager task that matter under runtime teardown (C08)"""
+    cm = strip_comments(read(repo, 'crates/anemo/src/network/connection_manager.rs'))
+    ep = strip_comments(read(repo, 'crates/anemo/src/endpoint.rs'))
+    start = block_after(cm, r'pub\s+async\s+fn\s+start\s*\(\s*mut\s+self\s*\)')
+    shut = block_after(cm, r'async\s+fn\s+shutdown\s*\(\s*mut\s+self\s*\)')
+    flat = lambda t: re.sub(r'\s+', ' ', t)
+    st, sh, epf = flat(start), flat(shut), flat(ep)
+    # accept arm
+    m = re.search(r'connecting = self\.endpoint\.accept\(\) => \{(.*?)\} ?,? ?Some\(connecting_output\)', st)
+    if not m:
+        raise ValueError('life: accept arm')
+    arm = re.sub(r'# ?\[cfg\(bmwill_anemo_verif\)\] ?crate::verif::point_ctx\([^;]*\);', '', m.group(1)).strip()
+    if re.fullmatch(r'if let Some\(connecting\) = connecting \{ self\.handle_incoming\(connecting\); \} else \{ break; \}', arm):
+        leaves = True
+    elif re.fullmatch(r'if let Some\(connecting\) = connecting \{ self\.handle_incoming\(connecting\); \}', arm):
+        leaves = False
+    else:
+        raise ValueError('life: accept arm body: ' + arm[:120])
+    # Endpoint::accept: None only from quinn's None
+    pm = re.search(r'impl Future for Accept<\'_> \{.*?fn poll\(.*?\) -> Poll<Self::Output> \{(.*?)\} \}', epf)
+    if not pm:
+        raise ValueError('life: Accept::poll')
+    body = pm.group(1)
+    if 'and_then(|incoming| incoming.accept().ok())' in body:
+        means_closed = False
+    elif re.search(r'None => return Poll::Ready\(None\)', body) and re.search(r'Err\(_\) => this\.inner\.set\(this\.endpoint\.accept\(\)\)', body) and body.count('Poll::Ready(None)') == 1:
+        means_closed = True
+    else:
+        raise ValueError('life: Accept::poll body')
+    # join results
+    pj = re.search(r'Some\(connecting_output\) = self\.pending_connections\.join_next\(\) => \{(.*?)\} ?,? ?Some\(connection_handler_output\)', st)
+    hj = re.search(r'Some\(connection_handler_output\) = self\.connection_handlers\.join_next\(\) => \{(.*?)\} ?,? ?\} \}', st)
+    if not pj or not hj:
+        raise ValueError('life: join arms')
+    pjb, hjb = pj.group(1), hj.group(1)
+    if 'connecting_output.unwrap()' in pjb or 'connection_handler_output.unwrap()' in hjb:
+        only_panics = False
+    elif (re.search(r'match connecting_output \{ Ok\(connecting_result\) => self\.handle_connecting_result\(connecting_result\), Err\(e\) if e\.is_panic\(\) => std::panic::resume_unwind\(e\.into_panic\(\)\), Err\(_\) => \{\} ?,? \}', pjb)
+          and re.search(r'if let Err\(e\) = connection_handler_output \{ if e\.is_panic\(\) \{ std::panic::resume_unwind\(e\.into_panic\(\)\); \} self\.handler_cancelled = true; \}', hjb)):
+        only_panics = True
+    else:
+        raise ValueError('life: join result handling')
+    # shutdown sequence
+    order = ['self.endpoint.close();', 'self.pending_connections.shutdown().await;', 'self.connection_handlers.join_next().await', 'assert!(', '.wait_idle(self.config.shutdown_idle_timeout())', 'self.endpoint.rebind(socket)']
+    pos = [sh.find(x) for x in order]
+    tolerant = pos[1] >= 0
+    pos_chk = [p for i, p in enumerate(pos) if i != 1]
+    if any(p < 0 for p in pos_chk) or pos_chk != sorted(pos_chk) or (tolerant and not (pos[0] < pos[1] < pos[2])):
+        raise ValueError('life: shutdown sequence')
+    if not tolerant and 'pending_connections' not in sh:
+        raise ValueError('life: pending connections not terminated')
+    if re.search(r'while let Some\(result\) = self\.connection_handlers\.join_next\(\)\.await \{ self\.handler_cancelled \|= matches!\(result, Err\(e\) if e\.is_cancelled\(\)\); \}', sh) and re.search(r'assert!\( self\.handler_cancelled \|\| self\.active_peers\.inner\(\)\.connections\.is_empty\(\),', sh):
+        waived = True
+    elif re.search(r'while self\.connection_handlers\.join_next\(\)\.await\.is_some\(\) \{\}', sh) and re.search(r'assert!\( self\.active_peers\.inner\(\)\.connections\.is_empty\(\),', sh):
+        waived = False
+    else:
+        raise ValueError('life: handler join / assert')
+    b = lambda x: 'true' if x else 'false'
+    return (f'def acceptNoneLeavesLoop : Bool := {b(leaves)}\n'
+            f'def acceptNoneMeansClosed : Bool := {b(means_closed)}\n'
+            f'def joinPropagatesOnlyPanics : Bool := {b(only_panics)}\n'
+            f'def assertWaivedWhenCancelled : Bool := {b(waived)}\n'
+            f'def pendingShutdownTolerant : Bool := {b(tolerant)}\n')
+
+
 ITEMS = [('ANEMO', item_anemo), ('Version', item_version), ('StatusCode', item_status),
-         ('headers', item_headers), ('ConfigDefaults', item_config), ('tieBreak', item_tiebreak), ('codegen', item_codegen), ('admit', item_admit)]
+         ('headers', item_headers), ('ConfigDefaults', item_config), ('tieBreak', item_tiebreak), ('codegen', item_codegen), ('admit', item_admit), ('life', item_life)]
 
 HEADER = '''/- GENERATED by /verif/tools/gen.py from /repo's working tree on every run -- do not edit. -/
 import AnemoModel.Basic
